@@ -8,10 +8,9 @@ TARGETS = ["NetqasmVerif.Props.C05"]
 M = "NetqasmVerif.Props.C05"
 THEOREMS = [(M, "NQ.C05." + n) for n in [
     "branch_taken_iff", "if_skeleton", "if_skeleton_skip", "loop_skeleton", "loop_skeleton_zero",
-    "loop_until_skeleton_exit", "loop_until_skeleton_continue", "loop_until_skeleton_max",
-    "break_at_most", "store_inits_correct", "array_init_loop_correct", "add_future_correct",
-    "add_regfuture_correct", "future_indexed_load", "seq_correct", "future_value_sound",
-    "emit_correct_partial", "f5_fixed", "f5_witness_old"]]
+    "break_at_most", "loop_until_skeleton_max", "loop_until_skeleton_exit", "loop_until_skeleton_continue",
+    "add_future_correct", "add_regfuture_correct", "addRes_mod_range", "future_indexed_load", "seq_correct",
+    "future_value_sound", "flush_returns_all", "emit_correct_partial", "f5_fixed", "f5_witness_old"]]
 TRANSLATORS = []
 LEVEL_TEXT = (
     "Lean: label-level semantics `ProtoExec` of the proto-commands the builder emits (labels are no-ops, a branch to L "
@@ -157,16 +156,16 @@ def run(ctx):
         check_oracle(prog, outs + [0] * 64, "corpus-" + name)
 
     # -- syntactic stream
-    nS = 9000 if ctx.thorough else 1500
+    nS = 50000 if ctx.thorough else 7000
     progs = []
     for i in range(nS):
         prog = H.Gen(rng, max_depth=4, max_stmts=30).program()
         correspond(prog, "random")
-        if i < (4000 if ctx.thorough else 700):
+        if i < (25000 if ctx.thorough else 3500):
             progs.append(prog)
         if len(res.samples) < 2 and i % 100 == 3:
             res.samples.append({"program": prog})
-    for _ in range(1500 if ctx.thorough else 250):
+    for _ in range(8000 if ctx.thorough else 1200):
         correspond(H.wild_program(rng), "adversarial")
 
     # -- oracle stream on the same programs, scripted outcomes
@@ -175,7 +174,7 @@ def run(ctx):
         check_oracle(prog, outs, "random")
 
     # -- small programs: every flush placement, both streams
-    nSmall = 120 if ctx.thorough else 25
+    nSmall = 700 if ctx.thorough else 100
     for _ in range(nSmall):
         g = H.Gen(rng, max_depth=3, max_stmts=12)
         core = [t for t in g.program(n_top=rng.choice([2, 3, 4]), flush_p=0.0) if t["k"] != "flush"][:6]
